@@ -3,10 +3,7 @@ import Secp.Proofs.ToMont
 # `Reduce`: the range check `x < m` by the borrow of `x - m`, and the conditional subtraction
 -/
 
-theorem reduce_tie_p (x : L4) : FiatField.reduce x = refReduce Mp x := by
-  unfold FiatField.reduce refReduce Mp; rfl
-theorem reduce_tie_n (x : L4) : FiatScalar.reduce x = refReduce Mn x := by
-  unfold FiatScalar.reduce refReduce Mn; rfl
+
 
 theorem mask_select (d x b : Nat) (hd : d < W) (hx : x < W) (hb : b ≤ 1) :
     Nat.lor (Nat.land d (wnot (wneg b))) (Nat.land x (wneg b)) = if b = 0 then d else x := by
@@ -73,15 +70,3 @@ theorem refReduce_correct (M : Modulus) (hM : M.Valid) (hMlt : M.val < W^4) (hbi
     · have : (⟨x.l0, x.l1, x.l2, x.l3⟩ : L4) = x := by cases x; rfl
       rw [this]; exact (Nat.mod_eq_of_lt hlt).symm
     · simp [hlt, hb1]
-
-theorem fieldReduce_correct (x : L4) (hx : x.ok) :
-    (FiatField.reduce x).1.ok ∧ (FiatField.reduce x).1.eval = x.eval % Pnat ∧
-    (FiatField.reduce x).2 = (if x.eval < Pnat then 1 else 0) := by
-  rw [reduce_tie_p, ← Mp_val]
-  exact refReduce_correct Mp Mp_valid Mp_lt (by decide) x hx
-
-theorem scalarReduce_correct (x : L4) (hx : x.ok) :
-    (FiatScalar.reduce x).1.ok ∧ (FiatScalar.reduce x).1.eval = x.eval % Nnat ∧
-    (FiatScalar.reduce x).2 = (if x.eval < Nnat then 1 else 0) := by
-  rw [reduce_tie_n, ← Mn_val]
-  exact refReduce_correct Mn Mn_valid Mn_lt (by decide) x hx
